@@ -43,7 +43,17 @@ claim("C16", "dominating-call fact on every append to the result + shape of the 
       STDNOTE,
       "DESIGN.md §4 C16")
 
+claim("C18", "table/exhaustiveness rules read from switch statements (style reachability, delimiter pairing for all 47 languages, sibling fallback agreement) + lexer consumption typestate and progress analysis on SSA + channel-close path rule",
+      "Decides: every comment style with delimiter rows is reachable from some language and vice versa; multi-line start/end delimiters are paired for every language; the two fallback tables agree; in lex no rune is consumed right after a delimiter without being examined (four (read, origin) pairs fail today and are known findings D8a/D8b - any other pair is a violation); every lexing loop consumes input or exits; the ChunkIterator producer closes its channel on all paths; raw strings have no escape. Agreement with a reference lexer on all strings and the chunk-grouping arithmetic are not decided.",
+      STDNOTE + "Tables are read from the AST with resolved constants; unsupported table shapes are reported as undecided (fail).",
+      "DESIGN.md §3 E7,E8, §4 C18")
+
+claim("C20", "effect/ownership analysis per method with operands as shared memory + result freshness through the heap summary + structural pairing rule for setIndex + must-pass-through delegation rule",
+      "Decides for all operation sequences: no StringSet/IntSet method other than Insert/Delete writes its receiver or argument, and every returned set/slice (and its backing map) is allocated by the call; pqHeap.Swap/Push report exactly the cell indices they stored into under the nil guard; Queue.Push/Pop/Fix/Remove reach their container/heap call on every path with unchanged arguments. The set-algebra laws and the heap order are not decided.",
+      STDNOTE,
+      "DESIGN.md §3 E1, §4 C20")
+
 _pending = "check not built yet in this round (planned: see DESIGN.md §4); not claimed until its rules run against /repo"
-for _id in ["C01","C02","C05","C06","C08","C11","C15","C17","C18","C19","C20"]:
+for _id in ["C01","C02","C05","C06","C08","C11","C15","C17","C19"]:
     na(_id, _pending)
 na("C07", "quantifies over the numeric behaviour of the sliding-window density, offset clamping and error-margin fusion at document edges; no clause of it is visible in the shape of the code and any proxy would be a frozen fragment (DESIGN.md §4 C07)")
